@@ -1377,6 +1377,7 @@ size_t ZSTD_CCtx_reset(ZSTD_CCtx* cctx, ZSTD_ResetDirective reset)
         cctx->streamStage = zcss_init;
         cctx->pledgedSrcSizePlusOne = 0;
         cctx->stableIn_notConsumed = 0;   /* input accepted but not yet compressed belongs to the abandoned session */
+        ZSTD_memset(&cctx->expectedInBuffer, 0, sizeof(cctx->expectedInBuffer));   /* and so does the stable input buffer it described */
     }
     if ( (reset == ZSTD_reset_parameters)
       || (reset == ZSTD_reset_session_and_parameters) ) {
